@@ -49,7 +49,7 @@ def levels_of(e, path=()):
                 out += levels_of(e["kw"][arg], path + (arg,))
     elif e["t"] == "coll":
         out.append(list(path))
-        for k, sub in e["items"]:
+        for k, sub in MG.resolve_copies(e)["items"]:
             out += levels_of(sub, path + (k,))
     return out
 
